@@ -7,7 +7,7 @@
    numbers the environment had ignored (pre), every sequence of runs of main() with well nested flows, every answer list
    and every schedule of OS-level arrivals and steps (oreach pre s, see ProofsDisp.v).                                  *)
 Require Import V.Lib.Base V.C18.Model V.C18.Proofs V.C18.ProofsTok V.C18.ProofsThm V.C18.ProofsRun.
-Require Import V.C18.Disp V.C18.ProofsDisp V.C18.ProofsDispThm V.C18.ProofsShut.
+Require Import V.C18.Disp V.C18.ProofsDisp V.C18.ProofsDispThm V.C18.ProofsShut V.C18.ProofsRunCb.
 Require V.Gen.Consts_C18.
 Local Open Scope Z_scope.
 
@@ -478,6 +478,86 @@ Theorem c18_os_run_with_fuel : forall m mask n r tlim dsp0 r0 a ra (ds : list Z)
   (length ds <= length r2)%nat -> (omeasure (os_main tlim dsp0 r0 f a ra) + 8 * length ds < ofuel_of c)%nat.
 Proof. exact orun_with_fuel. Qed.
 Print Assumptions c18_os_run_with_fuel.
+
+(* ---- the trace producer on flows that are NOT well nested from 0 (answer code 4: a callback takes a block, the main flow
+   releases it).  c18_os_run_reachable needs a start state inside [oreach], i.e. a flow with bal 0.  For ANY flow:
+   every state the decoded case passes through ([case_visits]: the states at which [orun] prints, c18_os_trace_is_visits;
+   [case_runs] are the runs [orun_with] performs, c18_os_case_runs) is - with the ghost plan emptied (set_flow s [] : [ops] of
+   the core and [oflow] of the registry, nothing else) - a state of an [oreach] history, provided the flow is well nested
+   relative to the blocks held ([wn_case] / [wn_run]: whenever the main flow executes an operation at depth k - blocks of
+   its own or callback-taken, not yet released - the operation is legal at k: an unblockSignals finds k >= 1).  The history
+   re-plans (oreach_flow / reach_ops) to each operation when the main flow executes it.  So every theorem of this file
+   about [oreach] / [reach] states that does not mention the plan applies to the states of the answer-4 traces
+   (c18_os_run_reachable_cb_core, and c18_no_entry_on_trace as an instance). ---- *)
+Theorem c18_os_run_reachable_cb : forall pre n ds s g,
+  oreach pre (set_flow s []) -> set_flow s g = s -> wn_run n ds s = true ->
+  Forall (fun s' => oreach pre (set_flow s' [])) (ovisits n ds s).
+Proof. exact orun_reach_cb. Qed.
+Print Assumptions c18_os_run_reachable_cb.
+
+Theorem c18_os_case_reachable_cb : forall c, wn_case c = true ->
+  Forall (fun s => oreach (case_pre c) (set_flow s [])) (case_visits c).
+Proof. exact case_reach_cb. Qed.
+Print Assumptions c18_os_case_reachable_cb.
+
+(* the core state of a visited state, plan emptied, is a [reach] state of a flow that is well nested from 0 *)
+Theorem c18_run_reachable_cb : forall c s, wn_case c = true -> In s (case_visits c) ->
+  exists o a, bal 0 o = true /\ reach o a (set_ops (core s) []).
+Proof.
+  intros c s Hw Hin. apply (shadowed_core (case_pre c)).
+  exact (proj1 (Forall_forall _ _) (case_reach_cb c Hw) s Hin).
+Qed.
+Print Assumptions c18_run_reachable_cb.
+
+(* the special case of the notes: when the main flow executes its first operation after callbacks took k blocks, the flow is bal k *)
+Theorem c18_os_bal_k_is_well_nested : forall pre tl f a ra n ds,
+  wn_bal_run n ds (os_main tl (boot pre) reg0 f a ra) = true -> wn_run n ds (os_main tl (boot pre) reg0 f a ra) = true.
+Proof. exact wn_bal_wn_main. Qed.
+Print Assumptions c18_os_bal_k_is_well_nested.
+
+(* [ovisits] are the states at which [orun] prints, [case_runs] the runs of [orun_with] *)
+Theorem c18_os_trace_is_visits : forall n ds s, exists tail, (tail = [] \/ tail = [-1]) /\
+  fst (orun n ds s) = flat_map (fun p => oemit (fst p) (snd p)) (combine (odecs n ds s) (ovisits n ds s)) ++ tail.
+Proof. exact orun_trace. Qed.
+Print Assumptions c18_os_trace_is_visits.
+
+Theorem c18_os_case_runs : forall c t,
+  In t (map (fun p => fst (orun (ofuel_of c) (fst p) (snd p))) (case_runs c)) -> exists x y, orun_with c = x ++ t ++ y.
+Proof. exact orun_with_runs. Qed.
+Print Assumptions c18_os_case_runs.
+
+(* instance: on such a trace no activation is about to enter the callback while the application holds a block *)
+Theorem c18_no_entry_on_trace : forall c s, wn_case c = true -> In s (case_visits c) -> 1 <= depth (core s) ->
+  Forall (fun f => h_pc f <> HCbEnter) (stack (core s)).
+Proof.
+  intros c s Hw Hin. apply (shadowed_no_entry (case_pre c)).
+  exact (proj1 (Forall_forall _ _) (case_reach_cb c Hw) s Hin).
+Qed.
+Print Assumptions c18_no_entry_on_trace.
+
+(* non-vacuity on harness cases (corpus/C18/regress.txt): signal 1 arrives before the first operation, its callback takes a
+   block (answer 4), signal 2 arrives while it is held, the main flow's unblockSignals(true) releases the block and delivers 2.
+   The flow [Unblock true] is not well nested from 0 (c18_os_run_reachable does not apply), it is well nested relative to the
+   blocks held; 8 of the 17 visited states hold the callback's block. *)
+Example ex_run_reachable_cb :
+  let c := [-1; 0; 1; 3; 1; 4; 1; 0; 0; 2] in
+  bal 0 (core_of (decode_fops [3])) = false /\ wn_case c = true /\
+  map (fun s => depth (core s)) (case_visits c) = [0; 0; 0; 1; 1; 1; 1; 1; 1; 1; 1; 0; 0; 0; 0; 0; 0] /\
+  Forall (fun s => oreach (case_pre c) (set_flow s [])) (case_visits c).
+Proof.
+  cbv zeta. split; [reflexivity|]. split; [vm_compute; reflexivity|]. split; [vm_compute; reflexivity|].
+  apply case_reach_cb. vm_compute. reflexivity.
+Qed.
+
+(* two callback-taken blocks released one after the other (the flow [Unblock true; Unblock true] is bal k for no k the run
+   reaches: depth is 1 at the first release): the history re-plans twice; and the shrunk case of C18-r15 *)
+Example ex_run_reachable_cb_twice :
+  let c := [-1; 0; 2; 3; 3; 2; 4; 4; 1; 0; 0; 0; 0; 0; 0; 2] in
+  wn_case c = true /\ map (fun s => depth (core s)) (case_visits c) = [0; 0; 0; 1; 1; 1; 0; 0; 0; 0; 1; 1; 1; 0; 0] /\
+  wn_case [-1; 0; 0; 1; 4; 1] = true /\ map (fun s => depth (core s)) (case_visits [-1; 0; 0; 1; 4; 1]) = [0; 0; 0; 1; 1; 1] /\
+  (* not everything is accepted: a release without a block *)
+  wn_case [-1; 0; 1; 3; 0] = false.
+Proof. cbv zeta. repeat split; vm_compute; reflexivity. Qed.
 
 (* ---- non-vacuity ---- *)
 Definition nopre : Z -> bool := fun _ => false.
